@@ -185,6 +185,28 @@ func genCert(r *mrand.Rand) ([]byte, certCase, error) {
 		}
 		kinds = append(kinds, "yubico")
 	}
+	if r.Intn(5) == 0 {
+		// the authority key identifier in its full form (openssl's "keyid,issuer:always"): key identifier, the issuer's
+		// own issuer name and its serial number, which is as wide as serial numbers are
+		nameDER, _ := asn1.Marshal(pkix.Name{CommonName: "Issuer of " + gen.Ident(r, 5), Organization: []string{"x"}}.ToRDNSequence())
+		dir, _ := asn1.Marshal(asn1.RawValue{Class: 2, Tag: 4, IsCompound: true, Bytes: nameDER})
+		ser := new(big.Int).SetBytes(gen.Bytes(r, []int{1, 2, 7, 8, 9, 16, 20, 20}[r.Intn(8)]))
+		if r.Intn(6) == 0 {
+			ser = new(big.Int).Lsh(big.NewInt(1), uint([]int{62, 63, 64, 127, 159}[r.Intn(5)]))
+		}
+		v := struct {
+			KeyID  []byte        `asn1:"optional,tag:0"`
+			Issuer asn1.RawValue `asn1:"optional"`
+			Serial *big.Int      `asn1:"optional,tag:2"`
+		}{Issuer: asn1.RawValue{Class: 2, Tag: 1, IsCompound: true, Bytes: dir}, Serial: ser}
+		if r.Intn(4) > 0 {
+			v.KeyID = gen.Bytes(r, 20)
+		}
+		if val, err := asn1.Marshal(v); err == nil {
+			t.ExtraExtensions = append(t.ExtraExtensions, pkix.Extension{Id: oid(2, 5, 29, 35), Value: val})
+			kinds = append(kinds, "aki-full-form")
+		}
+	}
 	if r.Intn(24) == 0 {
 		// a large certificate: lengths that need three and four length octets
 		t.ExtraExtensions = append(t.ExtraExtensions, pkix.Extension{Id: oid(1, 3, 6, 1, 4, 1, 41482, 99, 1), Value: gen.Bytes(r, 60000+r.Intn(20000))})
@@ -742,7 +764,11 @@ func pemBundles(r *ev.Run, pool [][]byte) {
 		withHeaders := 0
 		var buf bytes.Buffer
 		var want [][]byte
-		lead := []string{"", "Bag Attributes\n  friendlyName: x\n", "subject=CN=foo\nissuer=CN=bar\n", "\n\n  \n"}[c.Rand.Intn(4)]
+		lead := []string{"", "Bag Attributes\n  friendlyName: x\n", "subject=CN=foo\nissuer=CN=bar\n", "\n\n  \n", "0 s:/CN=slot\n   i:/CN=device\n", "01 - slot 9a attestation\n"}[c.Rand.Intn(6)]
+		if c.Rand.Intn(4) == 0 {
+			// leading text may begin with any character: none of them says what the rest is
+			lead = string(rune(0x20+c.Rand.Intn(95))) + " certificate listing, exported " + []string{"today", "0", "\x30\x82"}[c.Rand.Intn(3)] + "\n"
+		}
 		if k > 0 {
 			buf.WriteString(lead)
 		}
